@@ -345,6 +345,11 @@ func c05Check(e *core.Env, r *core.Rand, idx int64, file, text string, exists bo
 			return
 		}
 	}
+	if (core.Hash64("c05-cfghome", fmt.Sprint(idx))%40 == 0 || res.OK && core.Hash64("c05-cfghome2", fmt.Sprint(idx))%12 == 0) && e.KlogBin != "" && exists && cmd.Kind != "bookmarks" && cmd.Sabotage == 0 && !(cmd.Kind == "pause" && len(cmd.Ticks) > 1) {
+		if !c05UnusableConfigHome(e, file, text, cmd, env, w) {
+			return
+		}
+	}
 	if core.Hash64("c05-symlink", fmt.Sprint(idx))%8 == 0 && exists && cmd.Kind != "bookmarks" && cmd.Sabotage == 0 && !(cmd.Kind == "pause" && len(cmd.Ticks) > 1) {
 		if !c05ViaSymlink(e, file, text, cmd, env, w) {
 			return
@@ -394,6 +399,50 @@ func c05DevFull(e *core.Env, file, text string, cmd MCmd, env MEnv, w map[string
 	}
 	delete(w, "stdout")
 	e.Count("runs_with_unwritable_stdout", 1)
+	return true
+}
+
+// c05UnusableConfigHome runs the real binary with a config folder that does not exist and cannot be created (its parent
+// is a regular file): klog reads its settings from there and may want to keep things there; whatever it makes of that,
+// a non-zero status goes with an untouched target and status 0 with a valid one.
+func c05UnusableConfigHome(e *core.Env, file, text string, cmd MCmd, env MEnv, w map[string]any) bool {
+	blocker := e.Dir + "/not-a-folder"
+	_ = os.WriteFile(blocker, []byte("x"), 0644)
+	_ = os.WriteFile(file, []byte(text), 0644)
+	clock := env.Clock()
+	args := append(cmd.Args(), "--no-warn", file)
+	cfgHome := blocker + "/klog" // looking into it fails with ENOTDIR
+	if core.Hash64("c05-cfghome-kind", text, cmd.String())%3 != 0 {
+		cfgHome = "/proc/klog-verif-no-such-folder/klog" // looking into it says "does not exist", creating it is impossible (even for root)
+	}
+	w["config_home"] = cfgHome
+	b := obs.RunBin(obs.BinEnv{Bin: e.KlogBin, ConfigDir: cfgHome, Clock: &clock, NoColor: true, ExtraEnv: []string{"KLOG_VERIF_MAXITER=2"}}, args...)
+	if b.Err != nil {
+		return true
+	}
+	after := readFile(file)
+	w["how"] = "real binary, KLOG_CONFIG_HOME below a regular file (cannot be created)"
+	w["cfghome_exit"], w["cfghome_output"], w["cfghome_file_after"] = b.Code, trunc(b.Stdout+b.Stderr, 300), after
+	if obs.LooksLikeGoCrash(b.Stdout + b.Stderr) {
+		e.Count("crashes_counted_as_failures", 1)
+	}
+	if b.Code != 0 && after != text {
+		e.Violation("failed-command-changes-file", fmt.Sprintf("real binary with a config folder that cannot be created: `klog %s` exited with %d but the file's bytes changed\n%s", cmd.String(), b.Code, trunc(b.Stdout+b.Stderr, 300)), w)
+		return false
+	}
+	if b.Code == 0 {
+		if _, perr := readBack(after); perr != "" {
+			e.Violation("success-leaves-invalid-file", "real binary with a config folder that cannot be created: file does not parse after a successful command: "+perr, w)
+			return false
+		}
+		e.Count("runs_with_unusable_config_home_succeeding", 1)
+	}
+	delete(w, "how")
+	delete(w, "cfghome_exit")
+	delete(w, "cfghome_output")
+	delete(w, "cfghome_file_after")
+	delete(w, "config_home")
+	e.Count("runs_with_unusable_config_home", 1)
 	return true
 }
 
